@@ -663,9 +663,18 @@ pub fn string_repeat(
     args: &[JsValue],
 ) -> Result<Guarded, JsError> {
     let s = interp.to_js_string(&this);
-    let count = args.first().map(|v| v.to_number() as usize).unwrap_or(0);
+    let count = args.first().map(|v| v.to_number()).unwrap_or(0.0);
+    let count = if count.is_nan() { 0.0 } else { crate::prelude::math::trunc(count) };
+    // Negative or infinite counts, and results that cannot be stored, are RangeErrors
+    // (a plain `as usize` turned -1 into 0 and 1e10 into a 10 GB allocation).
+    if count < 0.0 || count.is_infinite() {
+        return Err(JsError::range_error("Invalid count value"));
+    }
+    if count * s.as_str().len() as f64 > crate::value::MAX_STRING_LENGTH as f64 {
+        return Err(JsError::range_error("Invalid string length"));
+    }
     Ok(Guarded::unguarded(JsValue::String(JsString::from(
-        s.as_str().repeat(count),
+        s.as_str().repeat(count as usize),
     ))))
 }
 
@@ -849,7 +858,11 @@ pub fn string_pad_start(
     args: &[JsValue],
 ) -> Result<Guarded, JsError> {
     let s = interp.to_js_string(&this);
-    let target_length = args.first().map(|v| v.to_number() as usize).unwrap_or(0);
+    let target_length = args.first().map(|v| v.to_number()).unwrap_or(0.0);
+    if target_length > crate::value::MAX_STRING_LENGTH as f64 {
+        return Err(JsError::range_error("Invalid string length"));
+    }
+    let target_length = target_length as usize;
     let pad_string = match args.get(1) {
         Some(v) => interp.to_js_string(v),
         None => interp.intern(" "),
@@ -878,7 +891,11 @@ pub fn string_pad_end(
     args: &[JsValue],
 ) -> Result<Guarded, JsError> {
     let s = interp.to_js_string(&this);
-    let target_length = args.first().map(|v| v.to_number() as usize).unwrap_or(0);
+    let target_length = args.first().map(|v| v.to_number()).unwrap_or(0.0);
+    if target_length > crate::value::MAX_STRING_LENGTH as f64 {
+        return Err(JsError::range_error("Invalid string length"));
+    }
+    let target_length = target_length as usize;
     let pad_string = match args.get(1) {
         Some(v) => interp.to_js_string(v),
         None => interp.intern(" "),
